@@ -220,13 +220,33 @@ elif ss_ok:
     observed["probe.sendsync"] = "compiles in " + " / ".join(ss_ok)
 
 # ---------------------------------------------------------------- 4. forbid(unsafe_code)
+def lib_check(name, flags, rustflags=None, manifest=None, target=None):
+    env = dict(ENV)
+    if rustflags:
+        env["RUSTFLAGS"] = rustflags
+    cmd = ["cargo", "check", "--offline", "--lib", "--manifest-path", manifest or os.path.join(REPO, "Cargo.toml"), "--target-dir", target or os.path.join(OUT, "lib-" + name)] + flags
+    rc, so, se = run(cmd, env=env)
+    return rc, se
+
+
+CONFIGS = [("default", []), ("nostd", ["--no-default-features"]), ("serialize", ["--features", "serialize"])]
+PROFILES = [("dev", []), ("release", ["--release"])]
 if rc_default == 0:
-    rc, se = lib_build("forbid", [], rustflags="-F unsafe_code")
-    if rc != 0:
-        violations.append(("c18:unsafe:crate-contains-unsafe-code", {"stderr": "\n".join(l for l in se.splitlines() if "unsafe" in l)[:1500]}))
-    else:
-        observed["probe.no-unsafe"] = "lib builds with -F unsafe_code"
-    # the attribute itself must be present and effective: an injected unsafe block must be refused
+    # (a) the whole library, generated code included, passes the lint at forbid level in every feature set of the
+    #     statement and in both standard profiles (code can be compiled in by cfg(debug_assertions) / cfg(feature))
+    clean = []
+    for cname, cflags in CONFIGS:
+        for pname, pflags in PROFILES:
+            rc, se = lib_check("forbid", cflags + pflags, rustflags="-F unsafe_code", target=os.path.join(OUT, "lib-forbid"))
+            if rc == 0:
+                clean.append(cname + "/" + pname)
+            elif "unsafe" in se:
+                violations.append(("c18:unsafe:crate-contains-unsafe-code:%s-%s" % (cname, pname), {"configuration": cname, "profile": pname, "stderr": "\n".join(l for l in se.splitlines() if "unsafe" in l)[:1500]}))
+            else:
+                violations.append(("c18:build:%s-fails-in-%s-profile" % (cname, pname), {"configuration": cname, "profile": pname, "stderr": se[-1500:]}))
+    observed["probe.no-unsafe"] = "lib passes -F unsafe_code in " + " ".join(clean)
+    observed["build.forbid"] = "ok" if len(clean) == 6 else "failed"
+    # (b) the attribute itself is present and effective in each of them: an injected unsafe block must be refused
     tmp = tempfile.mkdtemp(prefix="c18-unsafe-")
     try:
         for f in ["Cargo.toml", "Cargo.lock", "build.rs"]:
@@ -235,24 +255,42 @@ if rc_default == 0:
         shutil.copytree(os.path.join(REPO, "scripts"), os.path.join(tmp, "scripts"))
         with open(os.path.join(tmp, "src/lib.rs"), "a") as fh:
             fh.write("\n#[allow(unused_unsafe)]\npub fn __verif_unsafe_probe() -> u8 { unsafe { 1 } }\n")
-        rc, se = lib_build("unsafe-probe", [], manifest=os.path.join(tmp, "Cargo.toml"), target=os.path.join(OUT, "lib-unsafe-probe"))
-        if rc == 0:
-            violations.append(("c18:unsafe:forbid-attribute-missing-or-ineffective", {"what": "a copy of the crate with an injected `unsafe` block compiled"}))
-        elif "unsafe" in se and ("forbid" in se or "unsafe_code" in se):
-            observed["probe.forbid-unsafe"] = "injected unsafe block refused by forbid(unsafe_code)"
-        else:
-            inconclusive.append("unsafe probe failed for another reason: " + se[-300:])
+        refused = []
+        for cname, cflags in CONFIGS:
+            for pname, pflags in PROFILES:
+                rc, se = lib_check("unsafe-probe", cflags + pflags, manifest=os.path.join(tmp, "Cargo.toml"), target=os.path.join(OUT, "lib-unsafe-probe"))
+                if rc == 0:
+                    violations.append(("c18:unsafe:forbid-attribute-missing-or-ineffective:%s-%s" % (cname, pname), {"configuration": cname, "profile": pname, "what": "a copy of the crate with an injected `unsafe` block compiled"}))
+                elif "unsafe" in se and ("forbid" in se or "unsafe_code" in se):
+                    refused.append(cname + "/" + pname)
+                else:
+                    inconclusive.append("unsafe probe (%s/%s) failed for another reason: " % (cname, pname) + se[-300:])
+        observed["build.unsafe-probe"] = "failed" if refused else "ok"
+        if len(refused) == 6:
+            observed["probe.forbid-unsafe"] = "injected unsafe block refused by forbid(unsafe_code) in " + " ".join(refused)
     finally:
         shutil.rmtree(tmp, ignore_errors=True)
-    # informational: textual occurrences
-    n_unsafe = 0
-    for fn in os.listdir(os.path.join(REPO, "src")):
-        if fn.endswith(".rs"):
-            for line in open(os.path.join(REPO, "src", fn), errors="replace"):
-                code = line.split("//")[0]
-                if "unsafe" in code and "forbid(unsafe_code)" not in code and "unsafe_code" not in code:
-                    n_unsafe += 1
-    observed["src.lines_mentioning_unsafe"] = n_unsafe
+    # (c) "contains none": the keyword does not occur in any Rust source of the package: src/, build.rs, templates under
+    #     scripts/, and the code build.rs generated into OUT_DIR (comments stripped)
+    import re as _re2, glob as _glob2
+    files = _glob2.glob(os.path.join(REPO, "src", "**", "*.rs"), recursive=True) + [os.path.join(REPO, "build.rs")]
+    files += [f for f in _glob2.glob(os.path.join(REPO, "scripts", "**", "*"), recursive=True) if os.path.isfile(f) and (f.endswith(".rs") or f.endswith(".in") or f.endswith(".rs.in") or f.endswith(".tmpl"))]
+    files += _glob2.glob(os.path.join(OUT, "lib-forbid", "*", "build", "tls-parser-*", "out", "*.rs"))
+    hits = []
+    for fn in files:
+        try:
+            txt = open(fn, errors="replace").read()
+        except OSError:
+            continue
+        txt = _re2.sub(r"/\*.*?\*/", " ", txt, flags=_re2.S)
+        for ln, line in enumerate(txt.splitlines(), 1):
+            code = line.split("//")[0]
+            if _re2.search(r"\bunsafe\b", code):
+                hits.append("%s:%d: %s" % (fn.replace(OUT, "<build>"), ln, code.strip()[:120]))
+    observed["src.lines_mentioning_unsafe"] = len(hits)
+    observed["src.files_scanned_for_unsafe"] = len(files)
+    if hits:
+        violations.append(("c18:unsafe:keyword-in-package-sources", {"occurrences": hits[:10]}))
 
 # ---------------------------------------------------------------- 5. run-time monitor (thread sharing)
 harness_rc = 2
